@@ -884,6 +884,8 @@ fn infer_inner(rng: &mut Rng, tree: &Tree, cfg: &InferCfg, depth: u32, root: boo
                 let (k, x) = &kvs[0];
                 let vt = match x {
                     Tree::Arr(xs) if xs.len() >= 2 && rng.chance(1, 2) => VarTy::Tuple(xs.iter().map(|e| infer(rng, e, cfg, depth + 1, false)).collect()),
+                    // a tuple variant read from a *table* (positional keys `0`, `1`, ... — or a mismatch)
+                    Tree::Tab(sub) if !sub.is_empty() && rng.chance(1, 5) => VarTy::Tuple(sub.iter().map(|(_, e)| infer(rng, e, cfg, depth + 1, false)).collect()),
                     Tree::Tab(sub) if rng.chance(1, 2) => VarTy::Struct(sub.iter().map(|(f, e)| (f.clone(), infer(rng, e, cfg, depth + 1, false))).collect()),
                     other => VarTy::Newtype(Box::new(infer(rng, other, cfg, depth + 1, false))),
                 };
